@@ -109,6 +109,8 @@ class SymEval(Flow):
         self.invariants = {}    # id(loop) -> list of text
         self.backedge_hooks = []
         self.call_log = []      # (call node, resolved, positional values, {kw: value}, state)
+        self._inline_depth = 0
+        self.searches = []      # next(<i in range(lo, hi) if ..>, default): (node, lo, hi, d, result, state)
         self.loop_heads = {}    # id(loop) -> head state of the last pass
 
     # ---- state plumbing ------------------------------------------------------
@@ -285,7 +287,16 @@ class SymEval(Flow):
 
     def ev_IfExp(self, e, st):
         a, b = self.ev(e.body, st), self.ev(e.orelse, st)
-        return a if a == b else self.join_val(a, b)
+        if a == b:
+            return a
+        if isinstance(a, Int) and isinstance(b, Int):
+            # r = a under the condition, r = b under its negation (case split in the prover)
+            r = Aff.atom(fresh('ifexp'))
+            ft = self.cond_facts(e.test, st, True)
+            ff = self.cond_facts(e.test, st, False)
+            st.facts = st.facts.add_disj([ft + [r - a.a, a.a - r], ff + [r - b.a, b.a - r]])
+            return Int(r)
+        return self.join_val(a, b)
 
     def ev_Compare(self, e, st):
         for x in [e.left] + e.comparators:
@@ -382,6 +393,25 @@ class SymEval(Flow):
                 return v
         name = e.func.id if isinstance(e.func, ast.Name) else \
             (e.func.attr if isinstance(e.func, ast.Attribute) else '')
+        if r and r[0] == 'func' and r[1].outer is not None and self._inline_depth < 3 \
+                and not isinstance(r[1].node, ast.Lambda) and len(r[1].node.body) == 1 \
+                and isinstance(r[1].node.body[0], ast.Return) and r[1].node.body[0].value is not None \
+                and len(args) == len(r[1].params):
+            # a local helper of the form `def h(a, b): return <expr>`: evaluate it in place
+            saved = {p: st.vars.get(p) for p in r[1].params}
+            for p, v in zip(r[1].params, args):
+                st.vars[p] = v
+            self._inline_depth += 1
+            try:
+                val = self.ev(r[1].node.body[0].value, st)
+            finally:
+                self._inline_depth -= 1
+                for p, v in saved.items():
+                    if v is None:
+                        st.vars.pop(p, None)
+                    else:
+                        st.vars[p] = v
+            return val
         if r and r[0] == 'builtin':
             return self._builtin(name, e, args, st)
         if isinstance(e.func, ast.Attribute):
@@ -440,6 +470,7 @@ class SymEval(Flow):
                 if len(ra) == 2 and all(x is not None for x in ra):
                     r = Aff.atom(fresh('next'))
                     st.facts = st.facts.add_disj([[r - ra[0], ra[1] - 1 - r], [r - d, d - r]])
+                    self.searches.append((e, ra[0], ra[1], d, r, st))
                     return Int(r)
         if name == 'str' and len(args) == 1:
             return Seq(Aff.atom(('len', fresh('str'))), 'str')
